@@ -46,10 +46,69 @@ func (c *ctx) errFrom(fc *fileCtx, cond astx.Cond, calleeSuffix string) bool {
 		if call, ok := last.Rhs[0].(*ast.CallExpr); ok {
 			if fn := astx.Callee(info, call); fn != nil && strings.HasSuffix(fn.FullName(), calleeSuffix) {
 				found = true
+			} else if fn != nil && c.nilImplies(fn, calleeSuffix, 0) {
+				// a helper of the generator whose nil result implies that the named call succeeded
+				found = true
 			}
 		}
 	}
 	return found
+}
+
+// nilImplies: fn (declared in stratum B, returning an error last) can return nil only on paths on which a
+// call of `calleeSuffix` returned a nil error: every return statement that may yield nil is dominated by the
+// `== nil` edge of that call's error, or returns that call's error directly.
+func (c *ctx) nilImplies(fn *types.Func, calleeSuffix string, depth int) bool {
+	if depth > 3 {
+		return false
+	}
+	var fc *fileCtx
+	var fd *ast.FuncDecl
+	for _, f := range c.files {
+		if d := astx.DeclOfFunc(f.pkg.TypesInfo, []*ast.File{f.file}, fn); d != nil && d.Body != nil {
+			fc, fd = f, d
+		}
+	}
+	if fd == nil {
+		return false
+	}
+	info := fc.pkg.TypesInfo
+	n, good := 0, true
+	ast.Inspect(fd.Body, func(nn ast.Node) bool {
+		if _, isLit := nn.(*ast.FuncLit); isLit {
+			return false
+		}
+		ret, ok := nn.(*ast.ReturnStmt)
+		if !ok || len(ret.Results) == 0 {
+			return true
+		}
+		n++
+		e := astx.Unparen(ret.Results[len(ret.Results)-1])
+		conds := fc.par.Known(ret, fd)
+		// returns an error known to be non-nil on this path
+		if o := astx.IdentObj(info, e); o != nil {
+			for _, cd := range conds {
+				if x, ok := astx.EqNil(info, cd.E); ok && !cd.Pos && astx.IdentObj(info, x) == o {
+					return true
+				}
+			}
+		}
+		if call, ok := e.(*ast.CallExpr); ok {
+			if f2 := astx.Callee(info, call); f2 != nil {
+				if strings.HasSuffix(f2.FullName(), calleeSuffix) || f2.FullName() == "fmt.Errorf" || f2.FullName() == "errors.New" || c.nilImplies(f2, calleeSuffix, depth+1) {
+					return true
+				}
+			}
+		}
+		for _, cd := range conds {
+			if cd.Pos && c.errFrom(fc, cd, calleeSuffix) {
+				return true
+			}
+		}
+		good = false
+		return true
+	})
+	return good && n > 0
 }
 
 // G4 who may write files; G6 write after validate.
@@ -176,17 +235,26 @@ func (c *ctx) fileWrites() {
 		c.s.Unk("G4", "output path plumbing", "", "outputPath/OutputPath initialisers not found")
 	}
 	// main.run: the third argument of Process is outputs[name] or genFilename(path)
-	if fc, fd := c.findFunc("go.uber.org/cff/cmd/cff", "", "run"); fd != nil {
-		info := fc.pkg.TypesInfo
-		var proc *ast.CallExpr
-		ast.Inspect(fd.Body, func(n ast.Node) bool {
+	// (the per-file loop may live in run() or in a function run() delegates to)
+	var fc *fileCtx
+	var fd *ast.FuncDecl
+	var proc *ast.CallExpr
+	for _, f2 := range c.files {
+		if f2.pkg.PkgPath != "go.uber.org/cff/cmd/cff" {
+			continue
+		}
+		f2 := f2
+		ast.Inspect(f2.file, func(n ast.Node) bool {
 			if call, ok := n.(*ast.CallExpr); ok {
-				if fn := astx.Callee(info, call); fn != nil && fn.Name() == "Process" && len(call.Args) == 3 {
-					proc = call
+				if fn := astx.Callee(f2.pkg.TypesInfo, call); fn != nil && fn.Name() == "Process" && len(call.Args) == 3 && fn.Pkg() != nil && fn.Pkg().Path() == c.inter.PkgPath {
+					proc, fc, fd = call, f2, f2.funcDecl(call)
 				}
 			}
 			return true
 		})
+	}
+	if fd != nil {
+		info := fc.pkg.TypesInfo
 		good := false
 		if proc != nil {
 			if o := astx.IdentObj(info, proc.Args[2]); o != nil {
@@ -377,16 +445,29 @@ func (c *ctx) compileGate() {
 	}
 	c.s.Check(noErrs, "G9", "compileFlow|scheduling only with zero diagnostics", c.pos(sched), "", "the flow is scheduled although diagnostics were recorded")
 	c.s.Check(noCycle, "G9", "compileFlow|toposort only after the cycle check passed", c.pos(sched), "", "toposort (unguarded recursion) can run on a cyclic graph: cff would crash with a stack overflow")
-	// the registration loop over flow.Funcs precedes the validators
-	var reg *ast.RangeStmt
-	ast.Inspect(cfl.Body, func(nn ast.Node) bool {
-		if rs, ok := nn.(*ast.RangeStmt); ok && fc3.par[rs] == ast.Node(cfl.Body) {
-			if se, ok := rs.X.(*ast.SelectorExpr); ok && se.Sel.Name == "Funcs" {
-				reg = rs
+	// the provider/receiver tables are filled, unconditionally and at the top level of compileFlow, before the
+	// validators run: a top-level statement (the loop over flow.Funcs, or a call of a helper holding it) that
+	// reaches `<flow>.providers.Set(...)`
+	isProvSet := func(f2 *fileCtx, call *ast.CallExpr) bool {
+		se, ok := call.Fun.(*ast.SelectorExpr)
+		if !ok || se.Sel.Name != "Set" {
+			return false
+		}
+		inner, ok := astx.Unparen(se.X).(*ast.SelectorExpr)
+		return ok && inner.Sel.Name == "providers"
+	}
+	var reg ast.Stmt
+	for _, st := range cfl.Body.List {
+		if pos["validateFuncs"] != nil && st.Pos() > pos["validateFuncs"].Pos() {
+			break
+		}
+		switch st.(type) {
+		case *ast.RangeStmt, *ast.ForStmt, *ast.ExprStmt, *ast.AssignStmt:
+			if c.reachesCall(fc3, st, isProvSet, map[*ast.FuncDecl]bool{}) {
+				reg = st
 			}
 		}
-		return true
-	})
+	}
 	c.s.Check(reg != nil && pos["validateFuncs"] != nil && reg.End() < pos["validateFuncs"].Pos(), "G9", "compileFlow|providers/receivers registered before validation", c.pos(cfl), "", "provider/receiver tables are not (fully) built before the validators run")
 }
 
